@@ -973,12 +973,11 @@ def _probe_fn(x):
     return (x, x * x)
 
 
-def part_a(ctx, n_events):
+def part_a(ctx, rng, n_events):
     """random histories of direct calls / clear_cache / set_cache_maxsize on the real lru_cache objects (monitors
     removed) + a plain probe installed the way _control_lru does; cache_info() after every event vs the Lean model."""
     import yastn
     from functools import lru_cache
-    rng = ctx.rng
     uninstall()
     rew, clr, inf = control_lists()
     rec = ST.record or {}
@@ -1082,10 +1081,9 @@ def part_a(ctx, n_events):
 # ==========================================================================================
 
 def run(ctx):
-    import yastn
     rng = ctx.rng
     quick = ctx.quick
-    ctx.rule = ("histories = interleavings of 4-8 operation templates (tensordot under the three policies, add, vdot, trace, "
+    ctx.rule = ("histories = interleavings of 6-12 operation templates and near-copies of them (tensordot under the three policies, add, vdot, trace, "
                 "fuse_legs hard/meta + unfuse, svd, qr, apply_mask, broadcast, swap_gate, ncon) instantiated on tensors that share "
                 "struct/slices but differ in symmetry (U1/Z2/Z3, U1xU1/Z2xU1), fermionic flag, policy or fusion history, with "
                 "clear_cache()/set_cache_maxsize(0|1|2|1024) at random points; every operation is computed warm and cold "
@@ -1105,20 +1103,24 @@ def run(ctx):
             ctx.notes.append(f"memoised function {w.__module__}.{w.__name__} is not re-wrapped by set_cache_maxsize")
     install()
     ST.record = {}
-    budget = 36.0 if quick else 480.0
+    # history (phase, i) and part A are deterministic functions of VERIF_SEED: each gets its own generator derived from
+    # ctx.rng; the wall-clock guard can only truncate the list of histories, never change one
+    base = rng.getrandbits(64)
+    budget = 40.0 if quick else 480.0
     t_end = ctx.t0 + budget
-    n_pristine = 100 if quick else 800
-    n_resizing = 350 if quick else 4000
-    nh = 0
+    n_pristine = 90 if quick else 800
+    n_resizing = 290 if quick else 4000
     for phase, count in (("pristine", n_pristine), ("resizing", n_resizing)):
         limit = ctx.t0 + (budget * 0.3 if phase == "pristine" else budget)
-        for _ in range(count):
-            if time.time() > limit or len([f for f in ctx.findings if f.concrete]) >= 5:
+        for i in range(count):
+            if time.time() > limit:
+                ctx.count(f"wall-clock-guard:{phase}")
                 break
-            H = gen_history(rng, phase == "resizing", quick)
+            if len([f for f in ctx.findings if f.concrete]) >= 5:
+                break
+            H = gen_history(random.Random(f"{base}-{phase}-{i}"), phase == "resizing", quick)
             before = ST.stats["foreign_hits"]
             run_history(ctx, H, deadline=t_end + 10)
-            nh += 1
             ctx.count(f"histories:{phase}")
             ctx.case({"phase": phase, "variants": H["variants"], "templates": [t["kind"] for t in H["templates"]],
                       "events": H["events"], "init": H["init"]}, nontrivial=ST.stats["foreign_hits"] > before)
@@ -1128,18 +1130,22 @@ def run(ctx):
     ctx.extra["functions_with_hits"] = hitfuncs
     ctx.extra["functions_called"] = sorted(k[5:] for k in ST.stats if k.startswith("miss:"))
     # (A) model correspondence
-    part_a(ctx, 500 if quick else 6000)
+    part_a(ctx, random.Random(f"{base}-partA"), 500 if quick else 6000)
     install()
 
 
 def search(ctx, broken, budget):
     """the monitor and the warm/cold oracle ARE the search: run further histories for the remaining budget"""
-    if all(b.kind in ("proof", "audit") for b in broken):
-        ctx.notes.append("only proof/audit obligations are broken: no input of the real code is involved")
+    if all(b.kind in ("proof", "audit", "translator") for b in broken):
+        ctx.notes.append("only proof/audit obligations are broken: no input of the real code is involved, nothing to search")
+        return
+    base = ctx.rng.getrandbits(64)
     t_end = time.time() + min(budget, 40)
     install()
+    i = 0
     while time.time() < t_end and not any(f.concrete for f in ctx.findings):
-        run_history(ctx, gen_history(ctx.rng, True, ctx.quick), deadline=t_end)
+        run_history(ctx, gen_history(random.Random(f"{base}-search-{i}"), True, ctx.quick), deadline=t_end)
+        i += 1
 
 
 def replay(ctx, obj):
